@@ -49,6 +49,7 @@ def run_scenario(chk, pid, scen, params, label, replay, signature):
 
 def run(chk):
     thorough = chk.tier == 'thorough'
+    chk.bounds['families added after seeded changes'] = 'identifiers made of an operator prefix (EX, AG, AU, ..) plus symbolic characters; native fallback (enumeration) only if a part is unexplored'
     chk.bounds.update({'shapes': 'every operator / hybrid operator (with and without domain) / jump at the root over 13 child templates (thorough: plus a unary operator between root and child) -- trees of height <= 3 (4)',
                        'names': f'10 shapes with one symbolic identifier of 1..{3 if thorough else 2} characters (name characters incl. non-ASCII representatives) in every name slot; identifiers are assumed not to be reserved words',
                        'parser / preprocessing outputs': 'stored text and height are checked on every accepted path of C05 and C07'})
